@@ -1,0 +1,19 @@
+//go:build verif
+
+// Contracts checked by /verif (gocv). Comment-only; compiled only with -tags verif.
+
+package storage
+
+// seriesShard: shard `index` of `numShards` is the contiguous block [index*n/N, (index+1)*n/N) of
+// the selector's series, re-signed 0..len-1, in a fresh slice (the shared input is not written).
+//@ func seriesShard
+//@   requires numShards >= 1 && 0 <= index && index < numShards
+//@   assigns nothing
+//@   ensures[C02,C11] block-length: len(result) == (index+1)*len(series)/numShards - index*len(series)/numShards
+//@   ensures[C02,C11] block-content: forall i in 0..len(result) ::
+//@       result[i].Signature == i && result[i].Series == series[index*len(series)/numShards + i].Series
+//@   ensures[C12,C17,C20] fresh-copy: fresh(result)
+//@   loop 0 invariant idx: -1 <= rangeindex && rangeindex < imax(len(shard), 1)
+//@   loop 0 invariant signed: forall j in 0..rangeindex+1 :: shard[j].Signature == j
+//@   loop 0 invariant series-kept: forall j in 0..len(shard) :: shard[j].Series == atloop(shard[j].Series)
+//@   loop 0 invariant input-kept: forall j in 0..len(series) :: series[j].Series == old(series[j].Series) && series[j].Signature == old(series[j].Signature)
